@@ -278,6 +278,12 @@ def frozen(today):
     return common.frozen_today(today) if today is not None else _Null()
 
 
+def wsize(kw, *xs):
+    """size used to pick minimal witnesses: total length, options count, ASCII spellings preferred"""
+    strs = [x for x in xs if isinstance(x, str)]
+    return sum(len(x) for x in strs) + len(kw or ()) + (0.5 if any(not x.isascii() for x in strs) else 0)
+
+
 def short(x, n=60):
     r = ascii(x)
     return r if len(r) <= n else r[:n - 12] + '...(len %d)' % (len(x) if hasattr(x, '__len__') else -1)
@@ -849,12 +855,15 @@ def scaled(n, scale):
     return n if scale >= 1 or n <= 0 else max(1, int(n * scale))
 
 
-def scaled_params(params, scale):
-    """integer budgets scaled; the exhaustive decoration level ('full') is dropped for expensive modules"""
+def scaled_params(params, scale, tier=None):
+    """integer budgets scaled; the exhaustive decoration level ('full') is dropped for expensive modules, and
+    in the quick tier the every-position level ('dense') too for the very expensive ones (mac: 3 ms per lookup)"""
     out = dict((k, scaled(v, scale) if isinstance(v, int) and not isinstance(v, bool) else v)
                for k, v in params.items())
     if scale < 0.5 and 'full' in out:
         out['full'] = 0
+    if scale < 0.05 and tier == 'quick' and 'dense' in out:
+        out['dense'] = 0
     return out
 
 
